@@ -49,21 +49,19 @@ static inline bool SPEC_IS_NAME(qsv s, const SaslMechanism *m)
 }
 /* discriminator of finding C05-ht-garbled-name: "HT-" followed by a hash name that is immediately followed by a hash name
    that comes later in the table (the loop of SaslHtMechanism::fromString keeps consuming hash names after the first match) */
-static inline int spec_hash_name_at(qsv s, long off)   /* which hash name stands at offset off (none is a prefix of another), -1: none */
-{
-  for (int i = 0; i < 8; i++) {
-    long li = spec_hash_name_len(i);
-    if (li > 0 && off <= s.n && s.n - off >= li && spec_text_at(s, off, spec_hash_name(i), li)) return i;
-  }
-  return -1;
-}
 static inline bool spec_ht_two_hash_names(qsv s)
 {
   if (s.n < 3 || !spec_text_at(s, 0, "HT-", 3)) return false;
-  int i = spec_hash_name_at(s, 3);
-  if (i < 0) return false;
-  int j = spec_hash_name_at(s, 3 + spec_hash_name_len(i));
-  return j > i;
+  for (int i = 0; i < 8; i++) {
+    long li = spec_hash_name_len(i);
+    if (li > 0 && s.n >= 3 + li && spec_text_at(s, 3, spec_hash_name(i), li)) {
+      for (int j = 0; j < 8; j++) {
+        long lj = spec_hash_name_len(j);
+        if (j > i && lj > 0 && s.n >= 3 + li + lj && spec_text_at(s, 3 + li, spec_hash_name(j), lj)) return true;
+      }
+    }
+  }
+  return false;
 }
 #if defined(FINDING_ONLY)
 #define HT_FINDING_SPLIT(s) spec_ht_two_hash_names(s)
